@@ -478,6 +478,12 @@ fn families(l: &Lang, thorough: bool) -> Acc {
         Box::new(|x| format!("$[?@.a==\"{}\"]", x)),
         Box::new(|x| format!("$[?@['{}']==1]", x)),
         Box::new(|x| format!("$[?match(@.a,'{}')]", x)),
+        Box::new(|x| format!("$[?length('{}')==1]", x)),
+        Box::new(|x| format!("$[?search(\"{}\",@.a)]", x)),
+        Box::new(|x| format!("$[?$['{}']]", x)),
+        Box::new(|x| format!("$..['{}']", x)),
+        Box::new(|x| format!("$[0,'{}']", x)),
+        Box::new(|x| format!("$[?count(@['{}'])==1]", x)),
         Box::new(|x| format!("${}", x)),
         Box::new(|x| format!("{}$", x)),
         Box::new(|x| format!("$[0]{}", x)),
@@ -523,6 +529,14 @@ fn families(l: &Lang, thorough: bool) -> Acc {
         Box::new(|x| format!("$[?{}<@.a]", x)),
         Box::new(|x| format!("$[?length(@.a)=={}]", x)),
         Box::new(|x| format!("$[?@[0:{}]]", x)),
+        Box::new(|x| format!("$[?length({})==1]", x)),
+        Box::new(|x| format!("$[?match({},'a')]", x)),
+        Box::new(|x| format!("$[?search('a',{})]", x)),
+        Box::new(|x| format!("$[?count(@[{}])==1]", x)),
+        Box::new(|x| format!("$[?length(@[{}])==1]", x)),
+        Box::new(|x| format!("$[?value(@..[{}])==1]", x)),
+        Box::new(|x| format!("$[?@[{}:]]", x)),
+        Box::new(|x| format!("$[?{}==@.a]", x)),
     ];
     for c in &icar {
         for x in &ints {
